@@ -1,6 +1,9 @@
-(* Model/AeadWrap.v — lib.rs wrappers around the primitives: chapoly_{en,de}crypt_{ietf,noise},
-   x25519, x25519_derive_public, sha256, hmac_sha256, hkdf_noise, hkdf_sha256, scrypt.
-   Each Rust panic site is an explicit [Panic]. *)
+(* Model/AeadWrap.v — lib.rs wrappers around the primitives.  Defined here, each Rust panic site an explicit
+   [Panic]: chapoly_{en,de}crypt_{ietf,noise}, x25519, x25519_derive_public, hkdf_noise, hkdf_sha256.
+   NOT wrapped: sha256 and hmac_sha256 (the models use [p_hash] / [p_hmac] directly; their `unwrap`s can fail
+   only for inputs beyond 2^61 bytes) and scrypt ([p_scrypt] in the file-level models; the function itself with
+   all its asserts and arithmetic panics is Model/ScryptImpl.v).  Model/Files.v calls [p_hkdf] directly at
+   kestrel's own length 32, where [hkdf_sha256] cannot panic (PrimFacts.hkdf_sha256_own_calls). *)
 From Kestrel Require Import Bytes Outcome Prims.
 Local Open Scope N_scope.
 
@@ -56,5 +59,15 @@ Definition hkdf_noise (ck ikm : bytes) : bytes * bytes :=
   let o1 := p_hmac P temp [1] in
   let o2 := p_hmac P temp (o1 ++ [2]) in     (* counter2[..32] = output1 (32 bytes); counter2[32] = 2 *)
   (o1, o2).
+
+(* hkdf_sha256(salt, ikm, info, len): `orion::hazardous::kdf::hkdf::sha256::derive_key(..).unwrap()` into a
+   `vec![0u8; len]`.  orion refuses an empty destination and one longer than 255 * 32 = 8160 bytes, so the
+   `unwrap` panics exactly for len = 0 and len > 8160; there is no error value (the Rust function returns the
+   Vec), hence the empty error type.  kestrel's own calls pass len = 32 (Files.file_key calls [p_hkdf]
+   directly; PrimFacts.hkdf_sha256_own_calls shows the wrapper is [Ok] of the same value there). *)
+Definition hkdf_max_len : nat := 255 * 32.
+Definition hkdf_sha256 (salt ikm info : bytes) (len : nat) : outcome Empty_set bytes :=
+  if Nat.eqb len 0 || Nat.ltb hkdf_max_len len then Panic PUnwrap
+  else Ok (p_hkdf P salt ikm info len).
 
 End Wrap.
